@@ -91,6 +91,11 @@ def representation_error(mesh, refine, order, segmentwise=False, far=False):
         cut = np.quantile(z, 0.6)
         di = np.array([2 if (z[i] > cut or (z[i] < cut - 0.3 and i % 9 == 4)) else 1 for i in range(grid.number_of_elements)], dtype="uint32")
         grid = SG.make_grid(grid.vertices, grid.elements, di)
+    elif segmentwise == "listed":
+        # four domain ids (0 among them); each piece names two of them, in an order that is neither ascending nor the order of first occurrence
+        zc, xc = grid.centroids[:, 2], grid.centroids[:, 0]
+        di = np.array([2 * int(zc[i] > np.median(zc)) + int(xc[i] > np.median(xc)) for i in range(grid.number_of_elements)], dtype="uint32")
+        grid = SG.make_grid(grid.vertices, grid.elements, di)
     elif segmentwise:
         di = np.array([1 + (c[2] > np.median(grid.centroids[:, 2])) for c in grid.centroids], dtype="uint32")
         grid = SG.make_grid(grid.vertices, grid.elements, di)
@@ -113,6 +118,8 @@ def representation_error(mesh, refine, order, segmentwise=False, far=False):
             b = b - float(a @ FAR[:, 0])      # the same affine function in local coordinates: u = a.(x - c) + b stays O(1) on the surface
         total = np.zeros(pts.shape[1])
         pieces = [{"segments": [1]}, {"segments": [2]}] if segmentwise else [{}]
+        if segmentwise == "listed":
+            pieces = [{"segments": [3, 0]}, {"segments": [2, 1, 2]}]
         for kw in pieces:
             if segmentwise == "extended":
                 # the other documented way to split a continuous trace: piece 1 carries the hat functions of its closed segment, continued into the neighbouring
@@ -255,6 +262,7 @@ def main():
     run.add("representation.octa(refined 2): every regular order 8..20", "bounded", ob_order_sweep, "octa", 2)
     run.add("representation.octa(refined 2): point batches of size 1..5", "bounded", ob_point_batches)
     run.add("representation.octa(refined 2, trace split into an extended piece and an interior piece)", "bounded", ob_representation, "octa", 2, "extended")
+    run.add("representation.octa(refined 2, pieces given as unordered lists of domain ids)", "bounded", ob_representation, "octa", 2, "listed")
     run.add("representation.octa(refined 2, translated to (4e5, 5.5e6, 120))", "bounded", ob_representation, "octa", 2, False, True)
     if thorough:
         run.add("representation.cube12(refined 3)", "bounded", ob_representation, "cube12", 3)
